@@ -210,7 +210,8 @@ pub fn run(tier: Tier) -> i32 {
     let ctx = Ctx::new("C04", tier, "fault_enumeration");
     // the whole thorough alphabet costs a few seconds: both tiers run it
     let quick = false;
-    let _ = ctx.quick();
+    // thorough: every psk-modifier subset of every pattern (556 names per cipher x backend) and more payload lengths
+    let thorough = !ctx.quick();
     ctx.set_rule("case = one delivery to a transport-mode read: the peer's genuine message altered by every single-bit flip, every truncation length, extensions, all-zero / all-ones strings, reflection to its own sender, the corresponding message of a parallel session with the same static keys, a handshake message, and (stateless) the genuine message under every other nonce of a 80-value boundary alphabet; stateful and stateless, both directions, 38 patterns + psk variants x 3 ciphers x 2 backends, output buffers comfortably large and (un-modified patterns) exactly payload-sized / payload + 9; oracle: Ok iff unaltered message of this session, direction, key and nonce. non-trivial = the delivery was rejected as required");
     // last element: output buffers of the reads - 0 comfortably large, 1 exactly the payload size, 2 payload size + 9
     let mut cases: Vec<(Proto, Backend, bool, usize, usize, u8)> = vec![];
@@ -223,9 +224,17 @@ pub fn run(tier: Tier) -> i32 {
                 protos.push(Proto::new(bp, &[], DhAlg::P256, c, h).unwrap());
                 protos.push(Proto::new(bp, &[0, bp.msgs.len() as u8], DhAlg::X25519, c, HashAlg::Sha512).unwrap());
             }
+            if thorough {
+                // every psk-modifier subset of the pattern
+                for q in patterns::all_protos_for_suite(DhAlg::X25519, c, h) {
+                    if q.base == bp.name && !protos.iter().any(|x| x.name == q.name) {
+                        protos.push(q);
+                    }
+                }
+            }
             for (pi, p) in protos.into_iter().enumerate() {
                 for stateless in [false, true] {
-                    let plens: Vec<usize> = if quick { vec![0, 1, 17, 64] } else { vec![0, 1, 16, 17, 64, 255] };
+                    let plens: Vec<usize> = if thorough && pi == 0 { vec![0, 1, 15, 16, 17, 31, 32, 33, 64, 255, 256, 383] } else if quick { vec![0, 1, 17, 64] } else { vec![0, 1, 16, 17, 64, 255] };
                     for pl in plens {
                         cases.push((p.clone(), b, stateless, pl, 1, 0));
                         // backends branch on the size of the output buffer: the un-modified pattern again with tight buffers
